@@ -37,7 +37,7 @@ families and rules:
   rsub   ["rsub", [set...], [[g, r], ...], [set...]]
   spos   ["spos", [glyphs], VALUE]
   pair   ["pair", g1, VALUE, g2, VALUE|None] | ["cpair", set, VALUE, set, VALUE|None]
-         | ["epair", set, VALUE, set, VALUE|None]
+         | ["epair", set, VALUE, set, VALUE|None] | ["break"]  (explicit subtable break)
   curs   ["curs", [glyphs], ANCHOR|None, ANCHOR|None]
   mkbase ["mkbase", [bases], [[ANCHOR, markclass], ...]]
   mkmk   ["mkmk", [marks], [[ANCHOR, markclass], ...]]
@@ -332,15 +332,28 @@ class Interp:
                     if hit[4] is not None:
                         self.hits.add("second glyph of pair skipped")
                     return j + 1 if hit[4] is not None else j
-            # class pairs: one class table; the first glyph only has to be in some first class
-            crules = [r for r in l["rules"] if r[0] == "cpair"]
-            if crules and any(g in r[1] for r in crules):
+            # class pairs: one class table per run of class-pair rules (an explicit subtable
+            # break starts the next one); the first table whose first classes contain the
+            # first glyph is the one that applies, whatever the second glyph
+            tables, cur = [], []
+            for r in l["rules"]:
+                if r[0] == "break":
+                    tables.append(cur)
+                    cur = []
+                elif r[0] == "cpair":
+                    cur.append(r)
+            tables.append(cur)
+            for crules in tables:
+                if not any(g in r[1] for r in crules):
+                    continue
                 second = any(r[4] is not None for r in crules)
                 for r in crules:
                     if g in r[1] and h in r[3]:
                         self.add_value(pos[i], r[2])
                         self.add_value(pos[j], r[4])
                         break
+                if second:
+                    self.hits.add("second glyph of pair skipped")
                 return j + 1 if second else j
             return None
         if fam == "curs":
